@@ -9,6 +9,11 @@ Model: `AiocoapModel/Blockwise/{BlockOpt,TimeoutDict,Server}.lean` (`step`, `run
 `TD`).  The theorems quantify over every resource state / every request history (`List In`:
 arrival time, request from any endpoint, method, options, and the handler's behaviour at that
 moment), i.e. over all interleavings of request sequences of any number of clients.
+Handlers that suspend (several requests of a resource in flight at once, completing in any order) are
+covered by the section "handlers that overlap in time": `Blockwise/Overlap.lean` splits `step` at the
+`await` of the handler into `carrive` / `cfinish`; `C06_atomic_is_step` shows `step` to be the case of
+a handler that does not suspend, the `C06_overlap_*` theorems quantify over every list of arrival and
+completion events.
 Only property theorems and non-vacuity examples live in this file.
 -/
 set_option linter.unusedVariables false
